@@ -42,7 +42,7 @@ def run(ctx):
     hard = (not proved) or thorough
     seed = ctx.seed
     jobs = [
-        ('p8', ['g-share', '-parallel', 8, '-rounds', 12 if hard else 5, '-seed', seed]),
+        ('p8', ['g-share', '-parallel', 8, '-rounds', (40 if thorough else 12) if hard else 5, '-seed', seed]),
         ('p16v', ['g-share', '-parallel', 16, '-rounds', 8 if hard else 3, '-seed', seed + 1, '-verbose']),
         ('p2', ['g-share', '-parallel', 2, '-rounds', 20 if hard else 8, '-seed', seed + 2]),
         ('p32', ['g-share', '-parallel', 32, '-rounds', 6 if hard else 2, '-seed', seed + 3]),
